@@ -39,7 +39,10 @@ MC = {
     "t_restart": dict(N=3, fail=1, retry=0, wait=0, time=1, restart=1, abort=0, lanes="Lanes3", undo="BoolBoth"),
     "t_abort":   dict(N=3, fail=1, retry=0, wait=0, time=1, restart=0, abort=1, lanes="Lanes3", undo="BoolBoth"),
     "t_mix":     dict(N=3, fail=1, retry=1, wait=1, time=2, restart=1, abort=0, lanes="Lanes2", undo="BoolTrue"),
-    "t_n4":      dict(N=4, fail=1, retry=0, wait=0, time=1, restart=0, abort=0, lanes="Lanes2", undo="BoolBoth"),
+    # N=4: 64 forward DAGs; either all lane assignments with undo handlers everywhere, or one lane with
+    # every undo-handler assignment (the full product is 25 M transitions: too slow for the budget)
+    "t_n4":      dict(N=4, fail=1, retry=0, wait=0, time=1, restart=0, abort=0, lanes="Lanes2", undo="BoolTrue"),
+    "t_n4u":     dict(N=4, fail=1, retry=0, wait=0, time=1, restart=0, abort=0, lanes="Lanes1", undo="BoolBoth"),
     "t_live":    dict(N=3, fail=1, retry=1, wait=1, time=2, restart=0, abort=0, lanes="Lanes2", undo="BoolBoth", live=True),
     "q_kinds":   dict(N=4, NC=2, fail=0, retry=0, wait=0, time=1, restart=0, abort=0, kinds=True),
     "t_kinds":   dict(N=4, NC=2, fail=1, retry=0, wait=0, time=1, restart=0, abort=0, kinds=True),
@@ -50,7 +53,7 @@ MC = {
 }
 
 PLAN = {
-    "C01": {"quick": ["q_fail", "q_abort"], "thorough": ["q_fail", "t_fail2", "t_abort", "t_n4", "t_mix"]},
+    "C01": {"quick": ["q_fail", "q_abort"], "thorough": ["q_fail", "t_fail2", "t_abort", "t_n4", "t_n4u", "t_mix"]},
     "C02": {"quick": ["q_retry", "q_wait"], "thorough": ["t_retry", "t_wait", "t_n4", "t_mix"]},
     "C03": {"quick": ["q_wait", "q_abort", "q_anyorder", "q_live"],
             "thorough": ["t_wait", "t_abort", "t_fail2", "t_anyorder", "t_live", "t_mix"]},
